@@ -6,6 +6,6 @@ tier=${1:-quick}
 for d in seeded/C*/; do
   id=$(basename $d); prop=${id:0:3}
   echo "== $id"
-  ./tools/tryseed.sh $d/patch.diff $tier $prop 2>&1 | grep -v "^KNOWN" | cut -c1-220 | head -4
+  ./tools/tryseed.sh "$PWD/${d}patch.diff" $tier $prop 2>&1 | grep -v "^KNOWN" | cut -c1-220 | head -4
 done
 git -C /repo status --short | head -3
